@@ -455,3 +455,97 @@ func init() {
 		pure(modTypes+"."+fn, func(x *X, s *State, a []Val) Val { return Sc{T: sApp(esc, tm(a[0])), Sort: "Addr"} })
 	}
 }
+
+func init() {
+	// further cosmossdk.io/math methods, so that a change that switches to one of them is judged by its meaning
+	un := func(name string, f func(string) string, ret func(string) Val) {
+		pure(name, func(x *X, s *State, a []Val) Val {
+			x.nn(s, a[0])
+			return ret(f(tm(a[0])))
+		})
+	}
+	bin := func(name string, f func(a, b string) string, ret func(string) Val) {
+		pure(name, func(x *X, s *State, a []Val) Val {
+			x.nn(s, a[0], a[1])
+			return ret(f(tm(a[0]), tm(a[1])))
+		})
+	}
+	un(mDec+"RoundInt", func(a string) string { return sApp("chopRound", a) }, iv)
+	un(mDec+"TruncateDec", func(a string) string { return sApp("*", sApp("tdiv", a, "S"), "S") }, iv)
+	un(mDec+"Neg", func(a string) string { return "(- " + a + ")" }, iv)
+	un(mDec+"Abs", func(a string) string { return sApp("absI", a) }, iv)
+	un(mDec+"IsInteger", func(a string) string { return sEq(sApp("trem", a, "S"), "0") }, bv)
+	un(mDec+"TruncateInt64", func(a string) string { return sApp("tdiv", a, "S") }, iv)
+	un(mDec+"RoundInt64", func(a string) string { return sApp("chopRound", a) }, iv)
+	bin(mDec+"MulInt64", func(a, b string) string { return sApp("*", a, b) }, iv)
+	bin(mDec+"MulRoundUp", func(a, b string) string { return sApp("ceilDiv", sApp("*", a, b), "S") }, iv)
+	bin(mDec+"NotEqual", func(a, b string) string { return sNot(sEq(a, b)) }, bv)
+	for _, q := range []string{"QuoInt", "QuoInt64"} {
+		q := q
+		externs[mDec+q] = func(x *X, s *State, c *ssa.CallCommon, a []Val, call ssa.Value) (Val, bool) {
+			x.nn(s, a[0], a[1])
+			x.emit(s, "nopanic", "nopanic.divzero@"+x.site(s), nil, sNot(sEq(tm(a[1]), "0")), "LegacyDec."+q+" by zero")
+			return iv(sApp("tdiv", tm(a[0]), tm(a[1]))), true
+		}
+		pureExterns[mDec+q] = true
+	}
+	externs[mDec+"QuoRoundUp"] = func(x *X, s *State, c *ssa.CallCommon, a []Val, call ssa.Value) (Val, bool) {
+		x.nn(s, a[0], a[1])
+		x.emit(s, "nopanic", "nopanic.divzero@"+x.site(s), nil, sNot(sEq(tm(a[1]), "0")), "LegacyDec.QuoRoundUp by zero")
+		q := sApp("tdiv", sApp("*", tm(a[0]), "S", "S"), tm(a[1]))
+		return iv(sIte(sApp(">=", q, "0"), sApp("ceilDiv", q, "S"), sApp("tdiv", q, "S"))), true
+	}
+	pureExterns[mDec+"QuoRoundUp"] = true
+	un(mInt+"Neg", func(a string) string { return "(- " + a + ")" }, iv)
+	un(mInt+"Abs", func(a string) string { return sApp("absI", a) }, iv)
+	un(mInt+"ToLegacyDec", func(a string) string { return sApp("*", a, "S") }, iv)
+	un(mInt+"Int64", func(a string) string { return a }, iv)
+	un(mInt+"Uint64", func(a string) string { return a }, iv)
+	un(mInt+"IsInt64", func(a string) string { return "(and (<= (- 9223372036854775808) " + a + ") (< " + a + " 9223372036854775808))" }, bv)
+	un(mInt+"Sign", func(a string) string { return sIte(sApp(">", a, "0"), "1", sIte(sApp("<", a, "0"), "(- 1)", "0")) }, iv)
+	for n, op := range map[string]string{"AddRaw": "+", "SubRaw": "-", "MulRaw": "*"} {
+		op := op
+		bin(mInt+n, func(a, b string) string { return sApp(op, a, b) }, iv)
+	}
+	bin(mInt+"NotEqual", func(a, b string) string { return sNot(sEq(a, b)) }, bv)
+	for _, q := range []string{"QuoRaw", "Mod", "ModRaw"} {
+		q := q
+		externs[mInt+q] = func(x *X, s *State, c *ssa.CallCommon, a []Val, call ssa.Value) (Val, bool) {
+			x.nn(s, a[0], a[1])
+			x.emit(s, "nopanic", "nopanic.divzero@"+x.site(s), nil, sNot(sEq(tm(a[1]), "0")), "Int."+q+" by zero")
+			if q == "QuoRaw" {
+				return iv(sApp("tdiv", tm(a[0]), tm(a[1]))), true
+			}
+			return iv(sApp("trem", tm(a[0]), tm(a[1]))), true
+		}
+		pureExterns[mInt+q] = true
+	}
+	pure("cosmossdk.io/math.NewIntFromInt64", func(x *X, s *State, a []Val) Val { return iv(tm(a[0])) })
+	pure("cosmossdk.io/math.LegacyNewDecWithPrec", func(x *X, s *State, a []Val) Val {
+		return iv(x.sym("decWithPrec", "Int"))
+	})
+	pure("cosmossdk.io/math.LegacyMinDec", func(x *X, s *State, a []Val) Val { x.nn(s, a[0], a[1]); return iv(sApp("min2", tm(a[0]), tm(a[1]))) })
+	pure("cosmossdk.io/math.LegacyMaxDec", func(x *X, s *State, a []Val) Val { x.nn(s, a[0], a[1]); return iv(sApp("max2", tm(a[0]), tm(a[1]))) })
+	// Coins helpers
+	pure("("+sdkT+"Coins).Empty", func(x *X, s *State, a []Val) Val {
+		d := x.bound("d", "Str")
+		return bv(fmt.Sprintf("(forall ((%s Str)) (= (select %s %s) 0))", d, tm(a[0]), d))
+	})
+	pure("("+sdkT+"Coins).IsAllPositive", func(x *X, s *State, a []Val) Val {
+		return bv(x.sym("coins.allpositive", "Bool"))
+	})
+	pure("("+sdkT+"Coin).Equal", func(x *X, s *State, a []Val) Val {
+		o := a[1]
+		if iv, ok := o.(Iface); ok {
+			o = iv.V
+		}
+		return bv(x.eqV(a[0], o))
+	})
+	pure("("+sdkT+"Coin).IsEqual", func(x *X, s *State, a []Val) Val { return bv(x.eqV(a[0], a[1])) })
+	pure("("+sdkT+"Coin).GetDenom", func(x *X, s *State, a []Val) Val { return a[0].(St).F["Denom"] })
+	externs["("+sdkT+"Coin).AddAmount"] = func(x *X, s *State, c *ssa.CallCommon, a []Val, call ssa.Value) (Val, bool) {
+		x.nn(s, a[1])
+		return St{map[string]Val{"Denom": a[0].(St).F["Denom"], "Amount": iv(sApp("+", tm(a[0].(St).F["Amount"]), tm(a[1])))}}, true
+	}
+	pureExterns["("+sdkT+"Coin).AddAmount"] = true
+}
